@@ -83,7 +83,7 @@ func primary(f gallina.Flags) {
 		progs = append(progs, c.p)
 		corpusName = append(corpusName, c.name)
 	}
-	n := f.Count(80, 5000)
+	n := f.Count(80, 2000)
 	for i := 0; i < n; i++ {
 		progs = append(progs, genProg(f.Seed, i, f.Tier))
 		corpusName = append(corpusName, "")
